@@ -130,6 +130,20 @@ class World(object):
             self.flags.add('hundreds of diagrams alive at once' if len(self.bulk) >= 100 else 'dozens of diagrams alive at once')
         elif kind == 'unbulk':
             self.bulk = []
+        elif kind == 'reject':
+            # a FAILED call in the history: the root of a live diagram offered under the machine's other
+            # ordering (refused with ValueError / RuntimeError unless the orderings agree on it), and the
+            # h == node comparison that makes the same attempt; what is alive must not notice
+            if self.pool:
+                e = self.pool[op[1] % len(self.pool)]
+                other = self.orders[1 - e[1]]
+                for attempt in (lambda: OBDD(e[0].root, list(other)), lambda: OBDD(e[0].root, list(reversed(self.orders[e[1]]))),
+                                lambda: e[0] == e[0].root, lambda: OBDD(e[0].root, list(other)[:1])):
+                    try:
+                        attempt()
+                    except Exception:
+                        pass
+                self.flags.add('a refused constructor call on a live node')
         elif kind == 'churn':
             # a caller looking for a good ordering: the same small function under MANY other orderings
             # (permutations of the variables, then orderings with further variables in them), each
@@ -255,6 +269,10 @@ class World(object):
                 ident = a[0].root is b[0].root
                 if same_fn and a[0] is not b[0]:
                     self.flags.add('two distinct OBDD objects with equal truth tables')
+                ne1, ne2 = (a[0] != b[0]), (b[0] != a[0])
+                if ne1 == same_fn or ne2 == same_fn:
+                    return '!= says %s/%s for functions that are %s (tables %d, %d, ordering %s)' % (
+                        ne1, ne2, 'equal' if same_fn else 'different', a[2], b[2], self.orders[a[1]])
                 if eq1 != same_fn or eq2 != same_fn:
                     return '== says %s/%s for functions that are %s (tables %d, %d, ordering %s)' % (
                         eq1, eq2, 'equal' if same_fn else 'different', a[2], b[2], self.orders[a[1]])
@@ -327,7 +345,7 @@ def size_logs(nvars_list, seeds, count):
                         ['lambda', 0, ['and', ['v', 'v0'], ['or', ['v', 'v%d' % (1 + i)], ['not', ['v', 'v%d' % (2 + i)]]]]],
                         ['parse', 0, ['or', ['v', 'v%d' % i], ['and', ['v', 'v%d' % (i + 1)], ['v', 'v%d' % (i + 2)]]], 'sym'],
                         ['parse', 0, ['or', ['v', 'v%d' % i], ['and', ['v', 'v%d' % (i + 1)], ['v', 'v%d' % (i + 2)]]], 'word']]
-            log += [['gc'], ['printall'], ['churn', 140 + 20 * (sd % 7), sd], ['parse', 0, ['and', ['v', 'v0'], ['v', 'v1']], 'sym'],
+            log += [['reject', 0], ['restr', 0], ['reject', 1], ['inv', 1], ['inv', -1], ['gc'], ['printall'], ['churn', 140 + 20 * (sd % 7), sd], ['parse', 0, ['and', ['v', 'v0'], ['v', 'v1']], 'sym'],
                     ['bulk', count // 2, 2000 + sd, 0], ['restr', 0], ['inv', 1], ['inv', -1]]
             out.append({'orders': [order, list(reversed(order))], 'log': log})
     return out
@@ -501,6 +519,10 @@ def machine_shard(st, shard, nshards, payload):
         @rule(count=hs.sampled_from([40, 110, 110]), seedv=hs.integers(1, 10 ** 6), k=hs.integers(0, 1))
         def bulk_build(self, count, seedv, k):
             self._do(['bulk', count, seedv, k])
+
+        @rule(i=idx)
+        def refused_call(self, i):
+            self._do(['reject', i])
 
         @rule()
         def bulk_drop(self):
